@@ -202,7 +202,7 @@ def run(tier, seed):
                 seq = []
                 tags = list(TAGS)
                 rng.shuffle(tags)
-                paths = ["/t/%s" % t for t in tags[:4]] + ["/deep/er/%s" % tags[4], "/top_%s" % tags[5]]
+                paths = ["/t/%s" % t for t in tags[:3]] + ["/.hidden/%s" % tags[3], "/deep/.er/%s" % tags[4], "/.top_%s" % tags[5]]
                 for p, t in zip(paths, tags):
                     seq.append((p, "a", t))
                 # re-keep two of them with changed code, then back
